@@ -19,7 +19,7 @@ private def placementTags (qs : List Nat) (n : Nat) : List String :=
    (if hi + 1 - lo == k then "adjacent" else "spread"),
    (if k ≤ 1 then "single" else if qs == sorted.reverse then "descending" else if qs == sorted then "ascending" else "mixed")]
 
-def handle (inp out : Sexp) : CaseResult :=
+def handle0 (inp out : Sexp) : CaseResult :=
   match inp with
   | .list [.atom "gate", .str name, .list (.atom "params" :: ps), .list (.atom "qubits" :: qs), .atom n] =>
     match decodeAll decodeParam ps, decodeAll decodeQubit qs, n.toNat?, decodeRes out with
@@ -78,6 +78,11 @@ def handle (inp out : Sexp) : CaseResult :=
           (match spec, impl with | some s, .ok m => showDiff s m | some _, r => s!"spec defined, impl {resShow r}" | none, _ => "n/a") }
     | _, _, _ => .bad s!"undecodable program case"
   | _ => .bad s!"undecodable input"
+
+/-- `handle0` plus the known-finding classifier tag -/
+def handle (inp out : Sexp) : CaseResult :=
+  let r := handle0 inp out
+  { r with tags := r.tags ++ kfTags "C14" inp }
 
 end QV.C14
 
